@@ -314,6 +314,26 @@ func main() {
 			r.Viol("ip4-header-verify", "IPv4 header written by "+which+" does not verify: "+lib.Hex(outp[:20]), "ip4store "+lib.Hex(pre))
 		}
 	}
+	// long inputs: the theorem's domain is every length up to 131074 bytes (sharp: refuted at 131076); the
+	// library never sends that much, but Checksum is exported. Lengths around every power-of-two / 0xffff
+	// boundary, odd and even, random and 0xff-heavy contents.
+	longs := []int{4095, 4096, 4097, 9000, 9001, 32767, 32768, 65534, 65535, 65536, 65537, 70000, 100001, 131073, 131074}
+	if r.Thorough() {
+		longs = append(longs, 65533, 65538, 65539, 98303, 98304, 98305, 131071, 131072)
+	}
+	for _, n := range longs {
+		for k := 0; k < 2; k++ {
+			b := rng.Bytes(n)
+			if k == 1 {
+				for j := range b {
+					if rng.Chance(80) {
+						b[j] = 0xff
+					}
+				}
+			}
+			cs(b, "long")
+		}
+	}
 	nsend := 2000
 	if r.Thorough() {
 		nsend = 50000
